@@ -567,12 +567,19 @@ def frame_obligations(ctx, c, cx):
         if arr.eq(base):
             continue
         refs = allowed.get(k)
+        # objects allocated during this call (negative references) are not part of the caller's pre-state
+        fresh = [z3.IntVal(-i) for i in range(1, getattr(ctx, 'new_refs', 0) + 1)]
         if refs is None:
-            ctx.oblige('frame:%s' % k, arr == base, kind='frame')
+            expect = base
+            for t in fresh:
+                expect = z3.Store(expect, t, z3.Select(arr, t))
+            ctx.oblige('frame:%s' % k, arr == expect, kind='frame')
         elif any(isinstance(r, str) for r in refs):
             continue
         else:
             expect = base
             for r in refs:
                 expect = z3.Store(expect, r.term, z3.Select(arr, r.term))
+            for t in fresh:
+                expect = z3.Store(expect, t, z3.Select(arr, t))
             ctx.oblige('frame:%s' % k, arr == expect, kind='frame')
